@@ -53,15 +53,23 @@ class Fn:
 class Pred:
     """sid(x) % m != 0"""
 
-    def __init__(self, m, log=None, stage=None):
+    def __init__(self, m, log=None, stage=None, style=None):
         self.m = m
         self.log = log
         self.stage = stage or f'p{m}'
+        # what the predicate returns: a bool, or another object with that
+        # truth value (a list, an int, None / an object, a numpy bool ...),
+        # chosen by the position of the stage in the pipeline
+        if style is None:
+            n = sum(ord(c) for c in self.stage) if stage else 0
+            style = TRUTH_STYLES[n % len(TRUTH_STYLES)] if stage else 'bool'
+        self.style = style
 
     def __call__(self, x):
         if self.log is not None:
             self.log.append((self.stage, sid(x)))
-        return sid(x) % self.m != 0
+        keep = sid(x) % self.m != 0
+        return keep if self.style == 'bool' else truthy(keep, self.style, sid(x))
 
     def __repr__(self):
         return f'Pred({self.m})'
